@@ -7,7 +7,9 @@ from . import core
 LABEL_ALPHABET = ["a", "b", "z", "0", "7", " ", '"', '""', "\n", "=", "[", "]", ":", "é", " ", " ", "\U0001d11e",
                   "-", ".", "<", ">", "!", "\t", "'", "\\",
                   # text that a Unicode normalisation, a case fold or a white-space clean-up would change
-                  "e\u0301", "\u212b", "\u1100\u1161", "\ufb01", "\u200d", "\x0c", "\x85", "\u0130"]
+                  "e\u0301", "\u212b", "\u1100\u1161", "\ufb01", "\u200d", "\x0c", "\x85", "\u0130",
+                  # invisible characters that are not white space (they stay, also at the edge of a label), a comment-like line
+                  "\ufeff", "\u200b", "\n!", "\n !x", "%", "%s"]
 KEYWORDS = ['item [2]:', 'intervals [1]:', 'points [3]:', '"IntervalTier"', 'IntervalTier', '"TextTier"', 'text = "x"',
             'ooTextFile short', 'item [', 'xmin = 5', 'name = "q"', 'size = 3', '<exists>', 'class = "IntervalTier"',
             'mark = "m"', 'number = 1', 'intervals: size = 0', '! bang']
@@ -18,6 +20,9 @@ def rand_label(rng, maxlen=6, kw_share=0.0):
         s = rng.choice(KEYWORDS)
         if rng.random() < 0.3:
             s = rand_label(rng, 2) + s + rand_label(rng, 2)
+    elif maxlen >= 6 and rng.random() < 0.015:
+        # now and then a long label (a transcribed sentence, a comment)
+        s = "".join(rng.choice(LABEL_ALPHABET) for _ in range(rng.randint(120, 260)))
     else:
         s = "".join(rng.choice(LABEL_ALPHABET) for _ in range(rng.randint(0, maxlen)))
     return s.strip()
